@@ -1,6 +1,6 @@
 (* C14 — layout trivia and source positions.  Property theorems only. *)
 From Coq Require Import List NArith Bool String Ascii.
-From RV Require Import Loc LocProofs Lexer LexerTrivia LexerTrivia2 LexerTrivia3 GenLexer.
+From RV Require Import Loc LocProofs Lexer LexerTrivia LexerTrivia2 LexerTrivia3 LexerTriviaNum LexerTrivia4 LexerTriviaFloat GenLexer.
 Import ListNotations.
 Local Open Scope N_scope.
 
@@ -198,6 +198,134 @@ Proof.
 Qed.
 Local Close Scope string_scope.
 
+Local Open Scope string_scope.
+(* ---- decimal integer literals: a run of digits (no leading zero unless it is `0` alone) in front of a character that
+        can neither continue a number nor start a suffix is the LiteralInt of its value and of exactly its length,
+        whatever follows that character (for every suffix table whose suffixes begin with a letter) ---- *)
+Theorem C14_decimal_int_token :
+  forall keywords reserved_words symbols int_suffixes float_suffixes float_is_zero utf8_ok c a' v w r,
+    suffixes_alpha int_suffixes = true ->
+    all is_digit (String c a') = true -> (Ascii.eqb c "0" = true -> a' = "") ->
+    accum 10 dec_val (String c a') 0 = Some v ->
+    ends_number w ->
+    tok_at keywords reserved_words symbols int_suffixes float_suffixes float_is_zero utf8_ok false (String c a' ++ String w r) =
+    LOk (TInt "LiteralInt" v) (slen (String c a')).
+Proof. exact decimal_int_token. Qed.
+
+(* ---- prefixes that may hold decimal integer literals (`Pre2`): every prefix of `Pre` is one, and so is a decimal
+        integer literal in front of such a prefix whose first character ends a number ---- *)
+Theorem C14_pre_is_pre2 :
+  forall keywords reserved_words symbols int_suffixes float_suffixes float_is_zero utf8_ok nxt p,
+    Pre keywords reserved_words symbols int_suffixes float_suffixes float_is_zero utf8_ok nxt p ->
+    Pre2 keywords reserved_words symbols int_suffixes float_suffixes float_is_zero utf8_ok nxt p.
+Proof. exact pre_pre2. Qed.
+
+Theorem C14_pre2_decimal_int :
+  forall keywords reserved_words symbols int_suffixes float_suffixes float_is_zero utf8_ok nxt c a' v p,
+    suffixes_alpha int_suffixes = true ->
+    all is_digit (String c a') = true -> (Ascii.eqb c "0" = true -> a' = "") ->
+    accum 10 dec_val (String c a') 0 = Some v ->
+    ends_number (next_char nxt p) ->
+    Pre2 keywords reserved_words symbols int_suffixes float_suffixes float_is_zero utf8_ok nxt p ->
+    Pre2 keywords reserved_words symbols int_suffixes float_suffixes float_is_zero utf8_ok nxt (String c a' ++ p).
+Proof. exact pre2_decimal_int. Qed.
+
+(* ---- trivia in front of any token boundary behind such a prefix, the token in front of it being an identifier, keyword,
+        operator or string, or a decimal integer literal: the tokens that are not whitespace stay as they were.  Floating
+        point, hexadecimal, octal and suffixed literals and `<` / `>` are still outside these theorems ---- *)
+Theorem C14_trivia_behind_a_prefix_with_integers_partial :
+  forall keywords reserved_words symbols int_suffixes float_suffixes float_is_zero utf8_ok p c a' t (b : string) x spans,
+    Pre2 keywords reserved_words symbols int_suffixes float_suffixes float_is_zero utf8_ok c p ->
+    tok_at keywords reserved_words symbols int_suffixes float_suffixes float_is_zero utf8_ok false (String c a' ++ b) = LOk t (slen (String c a')) ->
+    solid t = true -> Ascii.eqb c "/" = false -> Trivia x ->
+    lex_file keywords reserved_words symbols int_suffixes float_suffixes float_is_zero utf8_ok (p ++ String c a' ++ b) = SOk spans ->
+    exists spans', lex_file keywords reserved_words symbols int_suffixes float_suffixes float_is_zero utf8_ok (p ++ String c a' ++ x ++ b) = SOk spans' /\
+                   strip (toks spans') = strip (toks spans).
+Proof. exact trivia_after_token_behind_prefix2. Qed.
+
+Theorem C14_trivia_behind_a_decimal_int_partial :
+  forall keywords reserved_words symbols int_suffixes float_suffixes float_is_zero utf8_ok p c a' v (b : string) x spans,
+    suffixes_alpha int_suffixes = true ->
+    Pre2 keywords reserved_words symbols int_suffixes float_suffixes float_is_zero utf8_ok c p ->
+    all is_digit (String c a') = true -> (Ascii.eqb c "0" = true -> a' = "") ->
+    accum 10 dec_val (String c a') 0 = Some v ->
+    tok_at keywords reserved_words symbols int_suffixes float_suffixes float_is_zero utf8_ok false (String c a' ++ b) =
+      LOk (TInt "LiteralInt" v) (slen (String c a')) ->
+    Trivia x ->
+    lex_file keywords reserved_words symbols int_suffixes float_suffixes float_is_zero utf8_ok (p ++ String c a' ++ b) = SOk spans ->
+    exists spans', lex_file keywords reserved_words symbols int_suffixes float_suffixes float_is_zero utf8_ok (p ++ String c a' ++ x ++ b) = SOk spans' /\
+                   strip (toks spans') = strip (toks spans).
+Proof. exact trivia_after_decimal_int_behind_prefix2. Qed.
+
+(* non-vacuity with the real tables: the suffix table meets the hypothesis; `n=16+x;`: the prefix `n=16+` (an identifier, an
+   operator, a decimal integer literal, an operator), the token `x`, a block comment in front of the `;`; and `n=16;` with
+   the comment behind the 16 *)
+Example C14_suffix_table_ok : suffixes_alpha int_suffixes = true.
+Proof. vm_compute. reflexivity. Qed.
+Example C14_integer_prefix_example :
+  let pre2 := Pre2 keywords reserved_words symbols int_suffixes float_suffixes (fun _ => false) (fun _ => true) "x"%char in
+  let lex := lex_file keywords reserved_words symbols int_suffixes float_suffixes (fun _ => false) (fun _ => true) in
+  let nonws s := option_map strip (match lex s with SOk l => Some (toks l) | _ => None end) in
+  pre2 ("n" ++ "=" ++ "16" ++ "+" ++ "") /\
+  nonws "n=16+x;" = nonws ("n=16+x" ++ ("/*" ++ " c " ++ "*/") ++ ";") /\
+  nonws "n=16;" = nonws ("n=16" ++ ("/*" ++ " c " ++ "*/") ++ ";").
+Proof.
+  cbv zeta. split; [|split; vm_compute; reflexivity].
+  apply (pre2_solid _ _ _ _ _ _ _ _ "n"%char "" (TId "n")); [vm_compute; reflexivity|reflexivity|split; intros; [reflexivity|discriminate]|].
+  apply (pre2_solid _ _ _ _ _ _ _ _ "="%char "" (TSym "Equals")); [vm_compute; reflexivity|reflexivity|split; intros; [discriminate|repeat split; intros; try reflexivity; discriminate]|].
+  apply (pre2_decimal_int _ _ _ _ _ _ _ _ "1"%char "6" 16%N); [vm_compute; reflexivity|reflexivity|discriminate|reflexivity|split; reflexivity|].
+  apply (pre2_solid _ _ _ _ _ _ _ _ "+"%char "" (TSym "Plus")); [vm_compute; reflexivity|reflexivity|split; intros; [discriminate|repeat split; intros; try reflexivity; discriminate]|].
+  apply Pre2Nil.
+Qed.
+Local Close Scope string_scope.
+
+Local Open Scope string_scope.
+(* ---- plain floating-point literals `digits.digits` (no exponent, no suffix): in front of a character that can neither
+        continue the literal nor start a suffix it is the LiteralFloat of exactly that text, whatever follows; it may
+        stand in a `Pre2` prefix, and trivia behind it leaves the tokens that are not whitespace unchanged ---- *)
+Theorem C14_plain_float_token :
+  forall keywords reserved_words symbols int_suffixes float_suffixes float_is_zero utf8_ok c wh fr w r,
+    fsuffixes_alpha float_suffixes = true ->
+    all is_digit (String c wh) = true -> all is_digit fr = true ->
+    ends_float w ->
+    let text := String c wh ++ String "." fr in
+    tok_at keywords reserved_words symbols int_suffixes float_suffixes float_is_zero utf8_ok false (text ++ String w r) =
+    LOk (TFloat FNone text) (slen text).
+Proof. exact plain_float_token. Qed.
+
+Theorem C14_pre2_plain_float :
+  forall keywords reserved_words symbols int_suffixes float_suffixes float_is_zero utf8_ok nxt c wh fr p,
+    fsuffixes_alpha float_suffixes = true ->
+    all is_digit (String c wh) = true -> all is_digit fr = true ->
+    ends_float (next_char nxt p) ->
+    Pre2 keywords reserved_words symbols int_suffixes float_suffixes float_is_zero utf8_ok nxt p ->
+    Pre2 keywords reserved_words symbols int_suffixes float_suffixes float_is_zero utf8_ok nxt ((String c wh ++ String "." fr) ++ p).
+Proof. exact pre2_plain_float. Qed.
+
+Theorem C14_trivia_behind_a_plain_float_partial :
+  forall keywords reserved_words symbols int_suffixes float_suffixes float_is_zero utf8_ok p c wh fr (b : string) x spans,
+    fsuffixes_alpha float_suffixes = true ->
+    Pre2 keywords reserved_words symbols int_suffixes float_suffixes float_is_zero utf8_ok c p ->
+    all is_digit (String c wh) = true -> all is_digit fr = true ->
+    let text := String c wh ++ String "." fr in
+    tok_at keywords reserved_words symbols int_suffixes float_suffixes float_is_zero utf8_ok false (text ++ b) = LOk (TFloat FNone text) (slen text) ->
+    Trivia x ->
+    lex_file keywords reserved_words symbols int_suffixes float_suffixes float_is_zero utf8_ok (p ++ text ++ b) = SOk spans ->
+    exists spans', lex_file keywords reserved_words symbols int_suffixes float_suffixes float_is_zero utf8_ok (p ++ text ++ x ++ b) = SOk spans' /\
+                   strip (toks spans') = strip (toks spans).
+Proof. exact trivia_after_plain_float_behind_prefix2. Qed.
+
+Example C14_float_suffix_table_ok : fsuffixes_alpha float_suffixes = true.
+Proof. vm_compute. reflexivity. Qed.
+Example C14_plain_float_example :
+  let lex := lex_file keywords reserved_words symbols int_suffixes float_suffixes (fun _ => false) (fun _ => true) in
+  let nonws s := option_map strip (match lex s with SOk l => Some (toks l) | _ => None end) in
+  tok_at keywords reserved_words symbols int_suffixes float_suffixes (fun _ => false) (fun _ => true) false ("0.5" ++ "*y;") =
+    LOk (TFloat FNone "0.5") 3 /\
+  nonws "x=0.5*y;" = nonws ("x=0.5" ++ ("//" ++ " half" ++ String "010" "") ++ "*y;").
+Proof. cbv zeta. split; vm_compute; reflexivity. Qed.
+Local Close Scope string_scope.
+
 (* ---- non-vacuity ---- *)
 Example C14_example :
   let a := [105; 110; 116; 10] in           (* "int\n" *)
@@ -223,3 +351,11 @@ Print Assumptions C14_trivia_after_the_first_token_partial.
 Print Assumptions C14_trivia_at_the_start_partial.
 Print Assumptions C14_trivia_behind_a_spaced_prefix_partial.
 Print Assumptions C14_trivia_behind_a_token_prefix_partial.
+Print Assumptions C14_decimal_int_token.
+Print Assumptions C14_pre_is_pre2.
+Print Assumptions C14_pre2_decimal_int.
+Print Assumptions C14_trivia_behind_a_prefix_with_integers_partial.
+Print Assumptions C14_trivia_behind_a_decimal_int_partial.
+Print Assumptions C14_plain_float_token.
+Print Assumptions C14_pre2_plain_float.
+Print Assumptions C14_trivia_behind_a_plain_float_partial.
